@@ -490,7 +490,7 @@ def entry_points(chk, repo):
         if isinstance(fn_, FuncRef) and fn_.node.name == 'compliance_dict_helper':
             freqs = args[0] if args else kwargs.get('tidal_frequencies')
             visc = args[2][0] if len(args) > 2 and isinstance(args[2], tuple) and args[2] else None
-            who = X.show(X.lift(visc))[:12] if visc is not None else 'x'
+            who = '|'.join(X.show(X.lift(getattr(a_, 'v', a_)))[:12] for a_ in args[2]) if visc is not None else 'x'      # the body: its (compliance, viscosity) pair
             return {sig: X.atom(f'J[{who}]{sig[0]}_{sig[1]}'.replace('-', 'm'), 'complex') for sig in freqs}
         return NotImplemented
 
